@@ -225,6 +225,8 @@ pub fn scan<V: Vary>(
 }
 
 #[inline]
+#[cfg_attr(kani, kani::requires(verif_kani::pix_range(x)))]
+#[cfg_attr(kani, kani::ensures(|r: &f32| verif_kani::is_round_up_to_half(x, *r)))]
 fn round_up_to_half(x: f32) -> f32 {
     #[cfg(feature = "fp")]
     {
@@ -366,3 +368,7 @@ mod tests {
         assert_eq!(x, 17.0);
     }
 }
+
+#[cfg(kani)]
+#[path = "/verif/kani/raster.rs"]
+pub(crate) mod verif_kani;
